@@ -415,7 +415,7 @@ def check_copy(ctx, rig, T, last, obs, label, detail):
     cls = copy_class(T, last)
     what = "%s(%s -> %s, read_only=%s) [%s, user %s]" % (op, R(last["src"]), R(last["dst"]), last["ro"], label,
                                                         "same" if rig.cuser else "different")
-    detail = dict(detail, last=last, cls=cls)
+    detail = dict(detail, last=last, cls=cls, events=[e for e in obs["events"] if e.get("e") != "ctr_run_ret"][:40])
     if obs["exc"] is not None:
         ctx.violation("%s:exception:%s" % (op, cls), dict(detail, exc=_exc(obs["exc"])), "%s raised %s" % (what, _exc(obs["exc"])))
         return False
@@ -473,7 +473,7 @@ def run_group(ctx, name, T, cuser, init_fs, ops, env=None, label="single"):
                 rig.hv, rig.cv = base_h, base_c
                 obs = await rig.copy(last["op"], last["src"], last["dst"], last["ro"])
                 ctx.case(("copy", name, json.dumps([last["op"], last["src"], last["dst"], last["ro"]])))
-                good = check_copy(ctx, rig, T, last, obs, name, {"kind": "copy", "scenario": name, "table": T, "cuser": cuser,
+                good = check_copy(ctx, rig, T, last, obs, name, {"kind": "copy", "scenario": label, "table": T, "cuser": cuser,
                                                                   "init_fs": init_fs, "env": env})
                 out["done"] += 1
                 if good:
@@ -662,7 +662,8 @@ def replay_behaviour(ctx, name, scen, beh):
     rig = CB.Rig(ctx.scratch("worlds"), name, T, cuser, env, fs, timeout=ctx.pick(120.0, 300.0))
     trace = [{"e": "begin", "sc": sc, "cuser": cuser, "env": env}]
     res = {"steps": 0, "ok": True}
-    det = {"kind": "behaviour", "behaviour": [b["state"]["last"] for b in beh[1:]], "env": env, "sc": sc, "cuser": cuser}
+    det = {"kind": "behaviour", "beh": [{"state": {k: b["state"][k] for k in ("env", "sc", "cuser", "pc", "last", "inst")}} for b in beh],
+           "scen": {sc: {"table": T, "fs": fs}}, "name": name}
 
     def bad(sig, what, **extra):
         res["ok"] = False
@@ -757,8 +758,7 @@ def replay_behaviour(ctx, name, scen, beh):
                 elif op in ("l2r", "r2l", "r2r"):
                     obs = await rig.copy(op, last["src"], last["dst"], last["ro"])
                     ctx.case(("bcopy", sc, cuser, json.dumps([op, last["src"], last["dst"], last["ro"]])))
-                    if not check_copy(ctx, rig, T, last, obs, name, {"kind": "copy", "scenario": sc, "table": T, "cuser": cuser,
-                                                                      "init_fs": fs, "env": env}):
+                    if not check_copy(ctx, rig, T, last, obs, name, dict(det, step=i)):
                         res["ok"] = False
                         break
                     found, streams = CB.decision_of(rig.world, obs["events"])
@@ -904,5 +904,13 @@ def replay(ctx, data):
         check_eff_case(ctx, d["case"])
     elif k == "hw":
         check_hw_case(ctx, d["case"], ctx.scratch("worlds"), 0)
+    elif k == "copy":
+        os.chdir(ctx.scratch("cwd"))
+        run_group(ctx, "replay", d["table"], d["cuser"], d["init_fs"], [(0, d["last"])], env=d["env"], label=d["scenario"])
+    elif k == "behaviour":
+        os.chdir(ctx.scratch("cwd"))
+        replay_behaviour(ctx, "replay", d["scen"], d["beh"])
+    elif k == "trace":
+        validate_traces(ctx, [d["trace"]])
     else:
         run(ctx)
